@@ -18,18 +18,22 @@ package config
 //@ ensures def: result == (version.Minor >= maxVersion.Minor)
 //@ end
 
-// SelectVersion: remote is the peer's list, newest first (what SupportedVersionsRange emits).
+// SelectVersion: remote is the peer's list in the peer's preference order. The result is the first
+// entry of remote inside the local range; when remote is newest-first (what SupportedVersionsRange
+// emits, see its newest-first clause) that is the highest version both sides allow.
+
+//@ define newestFirst(s) forall(0, len(s), func(i int) bool { return forall(i, len(s), func(j int) bool { return s[i].Minor <= s[j].Minor }) })
 
 //@ func SelectVersion
-//@ requires newest-first: forall(0, len(remote), func(i int) bool { return forall(i, len(remote), func(j int) bool { return remote[i].Minor <= remote[j].Minor }) })
 //@ ensures member: result1 ==> exists(0, len(remote), func(i int) bool { return remote[i].Major == result0.Major && remote[i].Minor == result0.Minor })
 //@ ensures in-local-range: result1 ==> inRange(result0)
-//@ ensures highest-common: result1 ==> forall(0, len(remote), func(i int) bool { return inRange(remote[i]) ==> result0.Minor <= remote[i].Minor })
+//@ ensures first-acceptable: result1 ==> exists(0, len(remote), func(i int) bool { return remote[i].Major == result0.Major && remote[i].Minor == result0.Minor &&
+//@    forall(0, i, func(k int) bool { return !inRange(remote[k]) }) })
+//@ ensures highest-common: result1 && newestFirst(remote) ==> forall(0, len(remote), func(i int) bool { return inRange(remote[i]) ==> result0.Minor <= remote[i].Minor })
 //@ ensures fails-iff-disjoint: !result1 ==> forall(0, len(remote), func(i int) bool { return !inRange(remote[i]) })
 //@ ensures zero-on-failure: !result1 ==> result0.Major == 0 && result0.Minor == 0
 //@ ensures input-kept: forall(0, len(remote), func(i int) bool { return remote[i].Minor == old(remote[i].Minor) && remote[i].Major == old(remote[i].Major) })
 //@ loop #1: scanned: forall(0, idx, func(i int) bool { return !inRange(remote[i]) })
-//@ loop #1: kept: forall(0, len(remote), func(i int) bool { return remote[i].Minor == old(remote[i].Minor) && remote[i].Major == old(remote[i].Major) })
 //@ end
 
 // Only DTLS 1.2 (fe fd) and DTLS 1.3 (fe fc) exist for this library.
@@ -52,9 +56,11 @@ package config
 //@ ensures newest-first: forall(0, len(result), func(i int) bool { return forall(i+1, len(result), func(j int) bool { return result[i].Minor < result[j].Minor }) })
 //@ ensures has-13: 252 <= minVersion.Minor && 252 >= maxVersion.Minor ==> len(result) >= 1 && is13(result[0])
 //@ ensures has-12: 253 <= minVersion.Minor && 253 >= maxVersion.Minor ==> exists(0, len(result), func(k int) bool { return is12(result[k]) })
-//@ loop #1: progress: len(out) <= idx && len(ordered) == 2 && is13(ordered[0]) && is12(ordered[1]) && !sameArray(out, ordered)
+//@ loop #1: progress: len(out) <= idx && cap(out) == 2 && len(ordered) == 2
+//@ loop #1: ordered-kept: is13(ordered[0]) && is12(ordered[1])
+//@ loop #1: out-fresh: !sameArray(out, ordered)
 //@ loop #1: supported-and-in-range: forall(0, len(out), func(k int) bool { return (is12(out[k]) || is13(out[k])) && inRange(out[k]) })
-//@ loop #1: prefix: forall(0, len(out), func(k int) bool { return exists(0, idx, func(i int) bool { return out[k].Minor == ordered[i].Minor }) })
+//@ loop #1: only-13-so-far: idx <= 1 ==> forall(0, len(out), func(k int) bool { return is13(out[k]) })
 //@ loop #1: newest-first: forall(0, len(out), func(i int) bool { return forall(i+1, len(out), func(j int) bool { return out[i].Minor < out[j].Minor }) })
 //@ loop #1: has-13: idx >= 1 && 252 <= minVersion.Minor && 252 >= maxVersion.Minor ==> len(out) >= 1 && is13(out[0])
 //@ loop #1: has-12: idx >= 2 && 253 <= minVersion.Minor && 253 >= maxVersion.Minor ==> exists(0, len(out), func(k int) bool { return is12(out[k]) })
